@@ -11,7 +11,8 @@ ID = "C06"
 LEVEL = "exploration"
 TECHNIQUE = "runtime metamorphic monitor (loop vs generator-made textual unrolling) plus reference-model monitor; fault injection for leaked variable / wrong-typed value"
 RULE = ("scripts with 1-2 loops (int/float ranges with/without step incl. empty and single-iteration; bracketed/parenthesised/bare lists of "
-        "int/float/bool/str values and expressions), bodies of 1-4 statements using the variable in modes, arguments, keyword arguments, list "
+        "int/float/bool/str values and expressions, sometimes a bool among numbers or 0/1 among bools: refused or bound converted), "
+        "bodies of 1-4 statements using the variable in modes, arguments (also inside measured-register expressions), keyword arguments, list "
         "elements and array indices, statements before and after, loops reusing a variable name; non-trivial = a loop with >=2 iterations "
         "and >=2 body statements, an empty range, or a negative case; distinct by SHA-1 of the loop script")
 BUDGET = {"quick": 4000, "thorough": 50000}
@@ -19,16 +20,18 @@ MIN_NONTRIVIAL = {"quick": 400, "thorough": 4000}
 REQUIRED_FUNCTIONS = ["listener.py:BlackbirdListener.exitForloop", "listener.py:BlackbirdListener.enterForloop", "listener.py:BlackbirdListener.exitStatement"]
 FUNCTIONS = REQUIRED_FUNCTIONS
 REQUIRED_TAGS = ["loop-range", "loop-range-step", "loop-list", "loop-empty", "loop:int", "loop:float", "loop:bool", "loop:str",
-                 "neg:use-after-loop", "neg:wrong-type", "same-variable-twice", "body:mode", "body:index", "body:kwarg", "body:list", "loopvar:underscore"]
+                 "neg:use-after-loop", "neg:wrong-type", "same-variable-twice", "body:mode", "body:index", "body:kwarg", "body:list", "body:regref", "debatable-value", "loopvar:underscore"]
 ASSUMPTIONS = ["the unrolling substitutes the reference value of each loop value, rendered as a bracketed literal of the declared type",
                "for negative cases any exception counts as 'refused'"]
 PH = "\x00"
 
 BODIES = {
     "int": [("(%s)", "body:arg"), ("(%s*2, k=%s)", "body:kwarg"), ("(k=[%s, 1])", "body:list"), ("(2**%s)", "body:arg"), ("(%s/2)", "body:arg"),
-            ("(1.5, x=-%s)", "body:kwarg"), ("(%s - 1 - 1)", "body:arg")],
+            ("(1.5, x=-%s)", "body:kwarg"), ("(%s - 1 - 1)", "body:arg"),
+            ("(q0 * %s)", "body:regref"), ("(%s*q1 + 0.5, k=q0 - %s)", "body:regref"), ("(k=q2*%s - q10)", "body:regref")],
     "float": [("(%s)", "body:arg"), ("(%s/2, 1)", "body:arg"), ("(k=%s)", "body:kwarg"), ("(sin(%s))", "body:arg"), ("(k=[%s])", "body:list"),
-              ("(-%s**2)", "body:arg"), ("(%s*%s, l=[1, %s+0.5])", "body:list")],
+              ("(-%s**2)", "body:arg"), ("(%s*%s, l=[1, %s+0.5])", "body:list"),
+              ("(q0 * %s)", "body:regref"), ("(%s + q1/2, 0.25)", "body:regref"), ("(k=%s*q0 - 2*q3)", "body:regref")],
     "bool": [("(%s)", "body:arg"), ("(k=%s)", "body:kwarg"), ("(1, %s)", "body:arg"), ("(k=[%s])", "body:list")],
     "str": [("(%s)", "body:arg"), ("(k=%s)", "body:kwarg"), ("(1, %s)", "body:arg"), ("(k=[%s, \"z\"])", "body:list")],
 }
@@ -75,8 +78,15 @@ def make_loop(rng, G, var, tags):
                 vals = rng.choice([["0.0", "-0.0"], ["-0.0", "0"], ["0", "-0.0", "0.0"], ["-0.0"]]) + vals[:1]
         elif vt == "bool":
             vals = [rng.choice(["True", "False"]) for _ in range(n)]
+            if rng.random() < 0.12:
+                vals.insert(rng.randrange(len(vals) + 1), rng.choice(["0", "1"]))
+                tags.add("debatable-value")
         else:
             vals = [G.string() for _ in range(n)]
+        if vt in ("int", "float") and rng.random() < 0.1:
+            # a bool among numbers: either refused or bound converted to the loop type
+            vals.insert(rng.randrange(len(vals) + 1), rng.choice(["True", "False"]))
+            tags.add("debatable-value")
         hdr = rng.choice(["[%s]", "(%s)", "%s", "[%s]", "(%s]"]) % ", ".join(vals)
     body = []
     arrs = [(n_, t) for n_, t in G.arrays.items() if not t[3]]
@@ -167,7 +177,7 @@ def render_unrolled(items, loop_values):
 
 def check_positive(ctx, items, tags):
     text = render_loop(items)
-    kind = common.classify(text)
+    kind = common.classify(text, convert_debatable=True)
     witness = {"text": text}
     if kind[0] == "ood":
         return ctx.out_of_domain(kind[1].split(" (")[0])
@@ -187,8 +197,13 @@ def check_positive(ctx, items, tags):
     ctx.case(text, nt, tags=[f for f in ref.features if f.startswith("loop")] + sorted(tags))
     ctx.sample({"loop_script": text, "unrolled": unrolled}, limit=1)
     p1, exc = common.real_loads(text)
+    if exc is not None and "loop-debatable" in ref.features:
+        # a bool listed among numbers (or 0/1 among bools) may be refused
+        return ctx.observe("debatable loop value refused with " + type(exc).__name__)
     if exc is not None:
         return ctx.violation("raises:" + common.exc_key(exc), "loads(loop script) raised %s" % common.exc_text(exc), witness)
+    if "loop-debatable" in ref.features:
+        ctx.observe("debatable loop value accepted: bound value must be the converted one")
     p2, exc = common.real_loads(unrolled)
     if exc is not None:
         return ctx.violation("unrolled-raises:" + common.exc_key(exc), "loads(unrolled script) raised %s" % common.exc_text(exc), witness)
